@@ -279,6 +279,7 @@ class C04(Check):
                     if need: c['need'] = need
                     yield c
         yield from self.save_scenarios(tier)
+        yield from self.derive_scenarios(tier)
 
     @staticmethod
     def save_scenarios(tier):
@@ -358,6 +359,55 @@ class C04(Check):
             return 'ok', refs, prms, raw
         except ERRORS as e:    # noqa
             return 'rejected', e, None, None
+
+    # -------------------------------------------------------------- derived environments must not change their upstream
+    def derive_scenarios(self, tier):
+        """X = a stored collection (materialize / cache / chunk / plain); Y = X.<shortcut>() is read in between two reads of X
+        (seed C04-L: a downstream filter writing into the interaction dicts that a non-copying store re-serves)."""
+        for src in SRC_MAIN if tier == 'quick' else SRC_ALL:
+            tags = set(SOURCES[src][2])
+            for chain in ([], ['Logged']):
+                if chain and not compatible(src, chain): continue
+                t = set(tags)
+                for f in chain: t = set(FILTERS[f][3](t))
+                for store in ('none', 'materialize', 'cache', 'chunk'):
+                    for short in SHORTCUTS:
+                        if short in ('none', 'params') or not SHORTCUTS[short][1](t): continue
+                        yield {'scenario': 'derive', 'src': src, 'chain': chain, 'store': store, 'short': short}
+
+    def run_derive(self, case, acc):
+        pipe = {'src': case['src'], 'chain': case['chain'], 'facade': True}
+        label = f"{case['store']}() then .{case['short']}"
+        try:
+            st = self.build(pipe)
+            X = apply_shortcut(case['store'], st.envs, st.built.owned)
+            first = [cinter(i) for i in X[0].read()]
+        except ERRORS:    # noqa   (pipelines that cannot be read at all are the histories' subject)
+            _reset_context(); acc.count('rejected_pipelines'); acc.outcome('derive-rejected'); return
+        acc.states += 1; acc.transitions += 1
+        try:
+            Y = apply_shortcut(case['short'], X, st.built.owned)
+            for _ in range(2):
+                for env in Y: list(env.read())
+            acc.transitions += 2
+        except ERRORS as e:    # noqa   the derived environment may be rejected; X must survive the attempt all the same
+            _reset_context(); acc.count('derived_environment_rejected')
+        try:
+            again = [cinter(i) for i in X[0].read()]
+        except ERRORS as e:    # noqa
+            _reset_context()
+            acc.violation(f'derived environment|re-reading the upstream raises {type(e).__name__} after the derived one was read|{case["store"]}', f'{label}: {e!r:.200}', case); return
+        acc.states += 1; acc.transitions += 1; acc.traces += 1
+        if first: acc.mark_nontrivial()
+        if again != first:
+            k = next((i for i, (a, b) in enumerate(zip(first, again)) if a != b), min(len(first), len(again)))
+            acc.violation(f'derived environment|reading it changed what the upstream environment gives|{case["store"]}',
+                          f'{label} on {case["src"]}{case["chain"]}: interaction {k}: {first[k:k+1]!r:.250} -> {again[k:k+1]!r:.250}', case)
+            return
+        now = snapshot(st.built)
+        if any(now.get(k) != v for k, v in st.snap.items()):      # (objects a shortcut of the harness adds later, e.g. the logging learner, are not the caller's data of X)
+            acc.violation(f'derived environment|caller-owned data modified|{case["store"]}', label, case); return
+        acc.outcome(('derive', case['store'], len(first)))
 
     # -------------------------------------------------------------- one operation + its oracle
     def step(self, st, op, refs, ref_params, i):
@@ -653,6 +703,7 @@ class C04(Check):
 
     def run_case(self, case, acc):
         if case.get('scenario') == 'saves': return self.run_saves(case, acc)
+        if case.get('scenario') == 'derive': return self.run_derive(case, acc)
         pipe = {k: case[k] for k in ('src', 'src2', 'short', 'duo', 'chain', 'facade', 'fan') if k in case}
         if 'hist' in case:                                     # replay of one history
             return self.replay_history(pipe, case['hist'], acc)
